@@ -65,7 +65,7 @@ def _replay_next_id(model, rec):
     return {"confirmed": False, "detail": "candidates %s all give a fresh in-range id" % cands}
 
 
-@contract("C06", "C06.oxml.presentation.CT_SlideIdList._next_id.fget", replay=_replay_next_id, timeout_ms=20000)
+@contract("C06", "C06.oxml.presentation.CT_SlideIdList._next_id.fget", replay=_replay_next_id, timeout_ms=60000)
 def _next_slide_id(c):
     """new slide id is in 256..2147483647, differs from every existing id, and the allocator never raises --
     for every population of distinct xsd:unsignedInt ids (values above the slide-id range included)."""
@@ -163,7 +163,7 @@ def _replay_shape_ids(kind):
     return replay
 
 
-@contract("C06", "C06.oxml.shapes.groupshape.CT_GroupShape.max_shape_id.fget", replay=_replay_shape_ids("max"), timeout_ms=20000)
+@contract("C06", "C06.oxml.shapes.groupshape.CT_GroupShape.max_shape_id.fget", replay=_replay_shape_ids("max"), timeout_ms=60000)
 def _max_shape_id(c):
     """max_shape_id >= every numeric @id of the part, is one of them (0 if none) and never raises,
     whatever text the @id attributes hold."""
@@ -183,7 +183,7 @@ def _max_shape_id(c):
     c.ensures("post.is_an_id_or_zero", z3.Or(r == 0, u.exists_eq(r)))
 
 
-@contract("C06", "C06.oxml.shapes.groupshape.CT_GroupShape._next_shape_id.fget", replay=_replay_shape_ids("next"), timeout_ms=20000)
+@contract("C06", "C06.oxml.shapes.groupshape.CT_GroupShape._next_shape_id.fget", replay=_replay_shape_ids("next"), timeout_ms=60000)
 def _next_shape_id_elm(c):
     """element-level allocator (groups, freeforms): result >= 1, differs from every numeric @id, never
     raises and never falls through (pigeonhole stated as an assumption)."""
@@ -405,7 +405,13 @@ class _GhostKeys:
 def _replay_rids(model, rec):
     from pptx.opc.package import _Relationships
 
-    for keys in ([], ["rId1"], ["rId2"], ["rId1", "rId3"], ["rId1", "rId2", "rId3"], ["rId3", "foo", "rId1"], ["rId10", "rId2"]):
+    import itertools
+
+    cands = [[], ["rId1"], ["rId2"], ["rId1", "rId3"], ["rId1", "rId2", "rId3"], ["rId3", "foo", "rId1"], ["rId10", "rId2"]]
+    # every subset of rId1..rId6 (gaps anywhere below the highest id)
+    for r in range(1, 6):
+        cands += [["rId%d" % i for i in combo] for combo in itertools.combinations(range(1, 7), r)]
+    for keys in cands:
         rels = _Relationships("/ppt")
         for k in keys:
             rels._rels[k] = object()
@@ -415,7 +421,7 @@ def _replay_rids(model, rec):
             return {"confirmed": True, "witness_class": "rid-raises", "detail": "keys %s: _next_rId raised %r" % (keys, e)}
         if got in keys or not got.startswith("rId") or not got[3:].isdigit() or int(got[3:]) < 1:
             return {"confirmed": True, "witness_class": "rid-not-fresh", "detail": "keys %s: _next_rId = %r" % (keys, got)}
-    return {"confirmed": False, "detail": "candidate key sets give fresh rIds"}
+    return {"confirmed": False, "detail": "%d candidate key sets (every subset of rId1..rId6 of size 1-5) give fresh rIds" % len(cands)}
 
 
 @contract("C06", "C06.opc.package._Relationships._next_rId.fget", replay=_replay_rids)
@@ -463,7 +469,7 @@ def _replay_partnames(model, rec):
 
 
 def _make_next_partname(tmpl):
-    @contract("C06", "C06.opc.package.OpcPackage.next_partname[%s]" % tmpl, replay=_replay_partnames, timeout_ms=20000)
+    @contract("C06", "C06.opc.package.OpcPackage.next_partname[%s]" % tmpl, replay=_replay_partnames, timeout_ms=60000)
     def body(c):
         """next_partname(tmpl) is tmpl % n with n >= 1 and is not the name of any reachable part, for every
         population of part names."""
@@ -569,7 +575,7 @@ def _replay_media_names(kind):
 
 
 def _make_media(kind):
-    @contract("C06", "C06.package.Package.next_%s_partname" % kind, replay=_replay_media_names(kind), timeout_ms=20000)
+    @contract("C06", "C06.package.Package.next_%s_partname" % kind, replay=_replay_media_names(kind), timeout_ms=60000)
     def body(c):
         """result is /ppt/media/<kind><k>.<ext> with k >= 1 different from the index of every existing part under
         that prefix (so the name is fresh whatever its extension)."""
@@ -705,27 +711,28 @@ class _GhostPart:
 
 
 def _replay_rename(model, rec):
-    import io
-    import zipfile
+    import itertools
 
     from pptx import Presentation
-
-    prs = Presentation()
-    for _ in range(4):
-        prs.slides.add_slide(prs.slide_layouts[6])
-    # scramble part names, then let the library rename
-    parts = [prs.part.related_part(s.rId) for s in prs.slides._sldIdLst]
     from pptx.opc.packuri import PackURI
 
-    for part, k in zip(parts, (7, 3, 9, 1)):
-        part.partname = PackURI("/ppt/slides/slide%d.xml" % k)
-    prs.part.rename_slide_parts([s.rId for s in prs.slides._sldIdLst])
-    got = [str(p.partname) for p in parts]
-    want = ["/ppt/slides/slide%d.xml" % (i + 1) for i in range(4)]
-    return {"confirmed": got != want, "witness_class": "slide-part-names", "detail": "slide parts scrambled to 7,3,9,1 are renamed to %s" % got}
+    scrambles = [(7, 3, 9, 1)] + [p + (4,) for p in itertools.permutations((1, 2, 3))] + [(1, 2, 4, 5), (2, 3, 4, 5), (4, 1, 2, 3), (1, 3, 2, 9)]
+    for nums in scrambles:
+        prs = Presentation()
+        for _ in range(4):
+            prs.slides.add_slide(prs.slide_layouts[6])
+        parts = [prs.part.related_part(s.rId) for s in prs.slides._sldIdLst]
+        for part, k in zip(parts, nums):
+            part.partname = PackURI("/ppt/slides/slide%d.xml" % k)
+        prs.part.rename_slide_parts([s.rId for s in prs.slides._sldIdLst])
+        got = [str(p.partname) for p in parts]
+        want = ["/ppt/slides/slide%d.xml" % (i + 1) for i in range(4)]
+        if got != want:
+            return {"confirmed": True, "witness_class": "slide-part-names", "detail": "slide parts named %s are renamed to %s" % (list(nums), got), "input": list(nums)}
+    return {"confirmed": False, "detail": "%d scrambled namings (incl. slides already in place) are renamed to slide1..slide4" % len(scrambles)}
 
 
-@contract("C06", "C06.parts.presentation.PresentationPart.rename_slide_parts", replay=_replay_rename, timeout_ms=20000)
+@contract("C06", "C06.parts.presentation.PresentationPart.rename_slide_parts", replay=_replay_rename, timeout_ms=60000)
 def _rename_slide_parts(c):
     """after renaming, the slide part related by the i-th rId is /ppt/slides/slide<i+1>.xml and no other part was
     renamed -- for any number of slides whose relationships lead to distinct parts."""
@@ -844,7 +851,7 @@ def _replay_partnames_twice(model, rec):
     return {"confirmed": False, "detail": "two further additions on a deck with numbering gaps give distinct part names"}
 
 
-@contract("C06", "C06.opc.package.OpcPackage.next_partname.second_call", replay=_replay_partnames_twice, timeout_ms=30000)
+@contract("C06", "C06.opc.package.OpcPackage.next_partname.second_call", replay=_replay_partnames_twice, timeout_ms=90000)
 def _next_partname_twice(c):
     """a second allocation for the same template on the same package object, after the set of parts has changed arbitrarily
     (it now contains the first name): the name returned is again not the name of any part."""
